@@ -20,6 +20,8 @@ import (
 	"fmt"
 	"go/ast"
 	"go/types"
+
+	"golang.org/x/tools/go/cfg"
 )
 
 func init() {
@@ -106,16 +108,43 @@ func ruleSnapshotsFiltered(p *Prog, r *Res) {
 				r.Bad(rule, key, p.Pos(as), "the old snapshot list is copied as a whole: snapshots younger than the point this import starts from are carried over, and the next import starts from a reassembly state that never saw the packets inserted now — a capture that arrives late is not replayed, a connection continuing after it becomes a second stream")
 				continue
 			}
+			// guarded: inside the range over the old list, the append is reached only over an edge of a condition that
+			// compares snapshot timestamps (an enclosing if, or an early `continue`)
 			guarded := false
-			for _, par := range stack {
-				if ifs, ok := par.(*ast.IfStmt); ok && ifs.Pos() > oldElems[elem].Pos() {
-					ast.Inspect(ifs.Cond, func(y ast.Node) bool {
+			{
+				rs := oldElems[elem]
+				fl := p.Flow(f)
+				mentionsTS := func(e ast.Node) bool {
+					hit := false
+					ast.Inspect(e, func(y ast.Node) bool {
 						if se, ok := y.(*ast.SelectorExpr); ok && se.Sel.Name == "timestamp" {
-							guarded = true
+							hit = true
 						}
-						return true
+						return !hit
 					})
+					return hit
 				}
+				fl.EdgeOK = func(b *cfg.Block, succ int) bool {
+					if len(b.Succs) != 2 || len(b.Nodes) == 0 {
+						return true
+					}
+					cond, ok := b.Nodes[len(b.Nodes)-1].(ast.Expr)
+					if !ok || !(rs.Body.Pos() <= cond.Pos() && cond.End() <= rs.Body.End()) {
+						return true
+					}
+					return !mentionsTS(cond)
+				}
+				var body *cfg.Block
+				for _, b := range fl.G.Blocks {
+					if b.Kind == cfg.KindRangeBody && b.Stmt == ast.Stmt(rs) {
+						body = b
+					}
+				}
+				if body != nil {
+					res := fl.Reach([]Pt{{body, 0}}, func(nd ast.Node) bool { return nd == ast.Node(as) }, nil)
+					guarded = !res.Found
+				}
+				fl.EdgeOK = nil
 			}
 			r.Check(guarded, rule, key, p.Pos(as), "appended under a comparison of snapshot timestamps", "an old snapshot is carried over without a comparison of its timestamp with the starting point of this import: a snapshot younger than that point describes a state without the packets inserted now")
 		}
@@ -139,8 +168,15 @@ func ruleQueueCutByImporterCount(p *Prog, r *Res, rule string) {
 		if !ok || len(as.Lhs) != 1 || len(as.Rhs) != 1 || !isFieldOf(info, as.Lhs[0], qfld) {
 			return true
 		}
-		sl, ok := ast.Unparen(as.Rhs[0]).(*ast.SliceExpr)
-		if !ok || sl.Low == nil || !isFieldOf(info, sl.X, qfld) {
+		// the cut: importJobs[n:], possibly wrapped in a copy (append([]string(nil), importJobs[n:]...), slices.Clone)
+		var sl *ast.SliceExpr
+		ast.Inspect(as.Rhs[0], func(y ast.Node) bool {
+			if s2, ok := y.(*ast.SliceExpr); ok && sl == nil && s2.Low != nil && isFieldOf(info, s2.X, qfld) {
+				sl = s2
+			}
+			return true
+		})
+		if sl == nil {
 			return true
 		}
 		n++
